@@ -448,12 +448,10 @@ func showInCSSString(env *env, out io.Writer, value any) error {
 		s = value.String(env)
 	case error:
 		s = value.Error()
+	case []byte:
+		w := newStringWriter(out)
+		return escapeBytes(w, value, false)
 	default:
-		v := reflect.ValueOf(value)
-		if v.Type() == byteSliceType {
-			w := newStringWriter(out)
-			return escapeBytes(w, v.Interface().([]byte), false)
-		}
 		var err error
 		s, err = toString(env, value)
 		if err != nil {
